@@ -62,3 +62,35 @@ theorem Shaped.of_getElem? {n : Nat} {r : Raw} (h : Shaped n r) {i : Nat} {b : B
   exact Array.getElem_mem_toList hi
 
 end A2Verif.Reload
+
+namespace A2Verif.Reload
+
+theorem toBytes_length {n : Nat} {r : Raw} (h : Shaped n r) : (toBytes r).length = n * r.units.size := by
+  unfold toBytes
+  rw [flatten_length_const h.units, Array.length_toList]
+
+theorem flatten_drop_take {n : Nat} : ∀ {l : List Bytes} {i : Nat}, (∀ u ∈ l, u.length = n) → i < l.length →
+    (l.flatten.drop (i * n)).take n = l[i]?.getD [] := by
+  intro l
+  induction l with
+  | nil => intro i _ hi; cases hi
+  | cons u t ih =>
+    intro i h hi
+    have hu : u.length = n := h u List.mem_cons_self
+    cases i with
+    | zero =>
+      simp only [Nat.zero_mul, List.drop_zero, List.flatten_cons, List.getElem?_cons_zero, Option.getD_some]
+      rw [List.take_left' hu]
+    | succ k =>
+      rw [List.flatten_cons, Nat.succ_mul, Nat.add_comm, ← List.drop_drop, List.drop_left' hu]
+      simp only [List.getElem?_cons_succ]
+      exact ih (fun x hx => h x (List.mem_cons_of_mem _ hx)) (by simpa using hi)
+
+/-- unit `i` of a shaped image sits at byte offset `i·n` of its saved bytes -/
+theorem slice_toBytes {n : Nat} {r : Raw} (h : Shaped n r) {i : Nat} (hi : i < r.units.size) :
+    ((toBytes r).drop (i * n)).take n = r.units[i] := by
+  unfold toBytes
+  rw [flatten_drop_take h.units (by simpa using hi)]
+  simp [hi]
+
+end A2Verif.Reload
